@@ -716,45 +716,52 @@ func (s *Service) ClientClose(client *ClientService) {
 		return
 	}
 
+	// remove every agent type this connection registered
+	var Agents []*AgentService
+	for _, a := range s.Agents {
+		if a != nil && a.client == client {
+			logger.Warn(fmt.Sprintf("%v unregistered agent %v", "["+colors.BoldWhite("SERVICE")+"]", "[Name: "+colors.Blue(a.Name)+"]"))
+			continue
+		}
+		Agents = append(Agents, a)
+	}
+	s.Agents = Agents
+
+	// remove every listener type this connection registered
+	var Listeners []*ListenerService
+	for _, l := range s.Listeners {
+		if l != nil && l.client == client {
+			logger.Warn(fmt.Sprintf("%v unregistered a new listener %v %v", "["+colors.BoldWhite("SERVICE")+"]", "[Name: "+colors.Blue(l.Name)+"]", "[Agent: "+colors.Blue(l.Agent)+"]"))
+			continue
+		}
+		Listeners = append(Listeners, l)
+	}
+	s.Listeners = Listeners
+
+	// remove the external c2 listeners and endpoints it started
+	s.Teamserver.ListenerServiceExc2RemoveAll(client)
+
+	// wake up agent requests that still wait for an answer of this connection
+	client.Mutex.Lock()
+	for id, channel := range client.Responses {
+		close(channel)
+		delete(client.Responses, id)
+	}
+	client.Mutex.Unlock()
+
+	// close client connection
+	if client.Conn != nil {
+		err := client.Conn.Close()
+		if err != nil {
+			logger.DebugError("Failed to close service client connection: " + err.Error())
+		}
+	}
+
+	// remove from list
 	for i := range s.clients {
 		if s.clients[i] == client {
-
-			// remove registered agents
-			for j := range s.Agents {
-				if s.Agents[j] != nil {
-					if s.Agents[j].client == client {
-						logger.Warn(fmt.Sprintf("%v unregistered agent %v", "["+colors.BoldWhite("SERVICE")+"]", "[Name: "+colors.Blue(s.Agents[j].Name)+"]"))
-
-						// remove from list
-						s.Agents = append(s.Agents[:j], s.Agents[j+1:]...)
-						break
-					}
-				}
-			}
-
-			// remove registered listeners
-			for j := range s.Listeners {
-				if s.Listeners[j] != nil {
-					if s.Listeners[j].client == client {
-						logger.Warn(fmt.Sprintf("%v unregistered a new listener %v %v", "["+colors.BoldWhite("SERVICE")+"]", "[Name: "+colors.Blue(s.Listeners[j].Name)+"]", "[Agent: "+colors.Blue(s.Listeners[j].Agent)+"]"))
-
-						// remove from list
-						s.Listeners = append(s.Listeners[:j], s.Listeners[j+1:]...)
-						break
-					}
-				}
-			}
-
-			// close client connection
-			if s.clients[i].Conn != nil {
-				err := s.clients[i].Conn.Close()
-				if err != nil {
-					logger.DebugError("Failed to close service client connection: " + err.Error())
-				}
-			}
-
-			// remove from list
 			s.clients = append(s.clients[:i], s.clients[i+1:]...)
+			break
 		}
 	}
 
